@@ -6,6 +6,7 @@ import Proofs.C01
 import Proofs.C02
 import Proofs.Lemmas.InprocAll
 import Proofs.Lemmas.InprocUnaryAll
+import Proofs.Lemmas.HttpServerStream
 
 namespace InprocStream
 
@@ -205,3 +206,39 @@ theorem C08_http_single_response_needs_ok (rs : Bool) (s s' : St) (evs : List Ev
   · simp at hs
 
 end HttpClientStream
+
+namespace HttpServerStream
+open InprocStream (HErr Reason Res codeOf)
+
+/-- **Over HTTP the server rejects a second request message on single-request methods**: whatever
+    the request body holds and however often the handler calls RecvMsg, it is given at most one
+    message, and it is given one only if the body consists of exactly that one decodable frame. -/
+theorem C08_http_server_single_request (req : List ReqItem) (acts : List Act) (s : St) (rs : List Res)
+    (h : run (init false req) acts = some (s, rs)) :
+    msgsOf rs = [] ∨ ∃ m, msgsOf rs = [m] ∧ req = [.data m true] := by
+  obtain ⟨hi, _, _, hm⟩ := run_facts req acts (init false req) s rs (inv_init false req) h
+  have hcs : s.clientStreams = false := by
+    have : ∀ (acts : List Act) (s0 s : St) (rs : List Res), run s0 acts = some (s, rs) → s.clientStreams = s0.clientStreams := by
+      intro acts
+      induction acts with
+      | nil => intro s0 s rs h; simp [run] at h; rw [h.1]
+      | cons a acts ih =>
+        intro s0 s rs h
+        obtain ⟨s1, r, rs', hs, hr, _⟩ := run_cons h
+        rw [ih s1 s rs' hr]
+        unfold step at hs
+        split at hs
+        · cases a <;> simp [stepFinished] at hs; rw [← hs.1]
+        · cases a <;> simp only [stepLive] at hs <;> (repeat' split at hs) <;> simp at hs <;> (try (rw [← hs.1]))
+    simpa [init] using this acts _ s rs h
+  simp only [init, List.nil_append] at hm
+  rw [← hm]
+  exact hi.single hcs
+
+/-- the second frame makes the first RecvMsg fail with InvalidArgument, and later calls see io.EOF -/
+theorem C08_http_server_second_request_rejected (s : St) (m : Nat) (x : ReqItem) (rest : List ReqItem)
+    (hf : s.finished = false) (hcs : s.clientStreams = false) (h0 : s.recvd = 0) (hreq : s.req = .data m true :: x :: rest) :
+    ∃ s', step s .recv = some (s', .status 3) ∧ step s' .recv = some (s', .eof) := by
+  refine ⟨_, by simp [step, stepLive, hf, hcs, h0, hreq]; rfl, by simp [step, stepLive, hf, hcs]⟩
+
+end HttpServerStream
